@@ -279,8 +279,8 @@ def run(ctx):
         checker_cmd="tlc -config ZLinTrace.cfg ZLinTrace (ZR_TRACE=<history>, workers 1, StateDeque)",
     )
     V.write_evidence(ctx, "model_checking", cov, assumptions=[
-        "operations of the ZOps model only (INCR, GETSET, SETNX, SET, DEL, HINCRBY, LPUSH, LPOP, RPOP on 2 string keys, "
-        "2 hash fields, 1 list); no expiry",
+        "operations of the ZOps model only (INCR, GETSET, SETNX, SET, SET NX / XX, SETEX with a far expiry, DEL, HINCRBY, "
+        "LPUSH, LPOP, RPOP on 2 string keys, 2 hash fields, 1 list); no reachable expiry",
         "history order is the parent process's own order of sending and receiving",
         "after a settle barrier (all replicas up, write barrier, equal applied index twice in a row) an unanswered "
         "operation is assumed not to take effect any more",
